@@ -8,6 +8,8 @@ CFG = {"read": False, "nonnode": True, "extras": True}
 def configs(tier):
     out = []
     new = {"node": ("node",), "anynode": ("anynode",), "symlink": ("symlink",)}
+    # LightNodeMixin with the debug switch on (its post-conditions see the caller's raw children argument, e.g. a generator)
+    out.append(dict(kind="light", n=3, cfg=dict(CFG), hidden=False, d=0, assertions=1, judge="c02"))
     out.append(dict(kind="baresym", n=4, cfg=dict(CFG, extras=False), hidden=False, d=0, assertions=0, judge="c02"))
     out.append(dict(kind="pctnode", n=3, cfg=dict(CFG, new=("pctnode",)), hidden=False, d=0, assertions=0, judge="c02"))
     for kind in ("mixin", "light", "node", "anynode", "symlink"):
